@@ -24,6 +24,7 @@
 
 
 import functools
+import keyword
 import re
 from .prologVisitor import prologVisitor
 from .errors import CompilerError
@@ -131,6 +132,20 @@ class VariableTerm(Term):
     @property
     def variables(self):
         return [ self.varname ]
+
+# Prolog variable names that cannot be used as the name of a Python local variable in the
+# generated code: Python constants, and names that the generated code itself refers to.
+_RESERVED_VARIABLE_NAMES = { 'ATOM_NIL', '__debug__', '__builtins__' }
+_RENAMED_VARIABLE_PREFIX = 'V_'
+
+def python_variable_name(varname):
+    """maps the name of a Prolog variable to the name of the Python variable that represents
+    it. Names that Python or the generated code reserve get a prefix, and so do names that
+    already start with that prefix, which keeps the mapping injective."""
+    if keyword.iskeyword(varname) or varname in _RESERVED_VARIABLE_NAMES \
+            or varname.startswith(_RENAMED_VARIABLE_PREFIX):
+        return _RENAMED_VARIABLE_PREFIX + varname
+    return varname
 
 class AnonymousVariableTerm(VariableTerm):
     def __init__(self,num):
@@ -359,7 +374,7 @@ class YPPrologVisitor(prologVisitor):
             variable = AnonymousVariableTerm(self.anonymousVariableCounter)
             self.anonymousVariableCounter += 1
         else:
-            variable = VariableTerm(varname)
+            variable = VariableTerm(python_variable_name(varname))
         return variable
 
     def unquoteString(self,s):
